@@ -354,3 +354,100 @@ def parser_flags(c, wanted):
             bad.append(f"attribute `{dest}` is written by {len(same_dest)} declarations")
     c.note = "; ".join(bad) if bad else f"{len(opts)} declarations; {', '.join(wanted)} are store_true switches"
     return F if bad else T
+
+
+# ------------------------------------------------- FileMetadataInterface.populate_from_path --
+PATH_FIELDS = ("filename", "file_extension", "file_path", "folder_path")
+
+
+def install_pathlib(reg):
+    """pathlib (ASSUMED, as in pack C04): Path(x) is total for str / Path; .name / .suffix are str, .parent is a Path; exists() is a
+    file-system query that may raise OSError; resolve() returns a Path or raises OSError / RuntimeError; str(p) is a str (the base
+    executor's str() of an abstract object).  Any other argument of Path(...) keeps the previous behaviour (unmodelled call)."""
+    from pyvc.values import VExt, ext_sort
+    P = ext_sort("Path")
+    f = lambda n, *s: z3.Function(n, *s)
+    P_OF, P_NAME, P_SUFFIX = f("pathlib.Path", S, P), f("Path.name", P, S), f("Path.suffix", P, S)
+    P_PARENT, P_EXISTS, P_RESOLVE = f("Path.parent", P, P), f("Path.exists", P, B), f("Path.resolve", P, P)
+
+    def new_path(ex, st, args, kwargs, node):
+        a = args[0] if len(args) == 1 and not kwargs else None
+        if isinstance(a, VStr):
+            return [(st, VExt("Path", P_OF(a.t)))]
+        if isinstance(a, VExt) and a.sort == "Path":
+            return [(st, a)]
+        return ex.havoc_call(st, "pathlib.Path", args, node)
+
+    def m_exists(ex, st, o, args, kwargs, node):
+        ex.raise_in(st.fork(), ex.mk_exc("OSError"))
+        return [(st, VBool(P_EXISTS(o.t)))]
+
+    def m_resolve(ex, st, o, args, kwargs, node):
+        for cls in ("OSError", "RuntimeError"):
+            ex.raise_in(st.fork(), ex.mk_exc(cls))
+        return [(st, VExt("Path", P_RESOLVE(o.t)))]
+    for key in ("pathlib.Path", ("new", "pathlib.Path"), ("new", "Path")):
+        reg.ext_models.setdefault(key, new_path)
+    reg.attr_models.setdefault(("Path", "name"), lambda ex, st, o: VStr(P_NAME(o.t)))
+    reg.attr_models.setdefault(("Path", "suffix"), lambda ex, st, o: VStr(P_SUFFIX(o.t)))
+    reg.attr_models.setdefault(("Path", "stem"), lambda ex, st, o: VStr(z3.Function("Path.stem", P, S)(o.t)))
+    reg.attr_models.setdefault(("Path", "parent"), lambda ex, st, o: VExt("Path", P_PARENT(o.t)))
+    reg.method_models.setdefault(("Path", "exists"), m_exists)
+    reg.method_models.setdefault(("Path", "resolve"), m_resolve)
+
+
+def populate_contract(target, Maker, FnContract, Raises):
+    """populate_from_path(path): with path None nothing is stored; otherwise each of the four path fields holds a str afterwards --
+    i.e. a value inhabiting its declared hint `str | None`, which is what the encoder and the type-directed decoder rely on.
+    `self` is a metadata object whose fields are all None (fresh) or arbitrary strings; path is None, a str or a pathlib.Path."""
+    from pyvc.values import VExt, ext_sort
+
+    def p_self():
+        def mk(ex, st, name):
+            out = []
+            for fresh in (True, False):
+                d = {f_: (NONE if fresh else VStr(z3.String(f"{name}.{f_}"))) for f_ in PATH_FIELDS + ("detected_encoding",)}
+                out.append((None, VRef(st.alloc(HeapObj("obj", d, "FileMetadataInterface", fresh=False), ex.refs))))
+            return out
+        return Maker(mk, desc="FileMetadataInterface (all fields None | arbitrary previous strings)")
+
+    def p_path():
+        def mk(ex, st, name):
+            return [(None, NONE), (None, VStr(z3.String(name))), (None, VExt("Path", z3.Const(name + "!path", ext_sort("Path"))))]
+        return Maker(mk, desc="None | str | pathlib.Path")
+
+    def flds(c, st=None):
+        return (st or c.st).obj(c.args["self"].ref).data
+
+    def untouched(c):
+        if c.args["path"] is not NONE:
+            return T
+        d, d0 = flds(c), flds(c, c.entry)
+        return z3.BoolVal(d.keys() == d0.keys() and all(d[k] is d0[k] for k in d0))
+
+    def is_str(field):
+        def g(c):
+            if c.args["path"] is NONE:
+                return T
+            v = flds(c).get(field)
+            if isinstance(v, VStr):
+                return T
+            c.note = f"{field} holds {v!r} after populate_from_path(<{type(c.args['path']).__name__}>): not a str"
+            return F
+        return g
+
+    def only_declared(c):
+        extra = sorted(set(flds(c)) - set(flds(c, c.entry)))
+        c.note = f"attributes that are not declared fields: {extra}" if extra else ""
+        return z3.BoolVal(not extra)
+
+    return FnContract(
+        target=target, params=[("self", p_self()), ("path", p_path())],
+        ensures=[("no-path-leaves-the-fields-untouched", untouched)] +
+                [(f"{f_}-holds-a-str", is_str(f_)) for f_ in PATH_FIELDS] +
+                [("stores-declared-fields-only", only_declared)],
+        raises=[Raises("OSError", when=lambda c: z3.BoolVal(c.args["path"] is not NONE), label="file-system query failed"),
+                Raises("RuntimeError", when=lambda c: z3.BoolVal(c.args["path"] is not NONE), label="symlink loop in resolve()")],
+        modifies=("self",),
+        note="VERIFIED (round 7; before: provenance data flow + BOUNDED native scope): the four path fields hold str values after the "
+             "call (hint `str | None`), nothing is stored for path None; relative to the assumed pathlib model")
